@@ -63,6 +63,9 @@ type Console struct {
 	Respond func(c *Console, written []byte) []byte
 	// Silent disables all automatic replies.
 	Silent bool
+	// Mirror, if set, receives a copy of every write (used by child processes that are
+	// expected to die: the parent reads the mirrored stream).
+	Mirror func([]byte)
 	// NegativeTcap: answer XTGETTCAP queries for capabilities the terminal lacks with the
 	// failure form `DCS 0 + r <name> ST` instead of staying silent.
 	NegativeTcap bool
@@ -126,6 +129,9 @@ func (c *Console) Write(p []byte) (int, error) {
 	c.mu.Lock()
 	c.out.Write(p)
 	c.all += len(p)
+	if c.Mirror != nil {
+		c.Mirror(p)
+	}
 	var resp []byte
 	if !c.Silent {
 		if c.Respond != nil {
